@@ -213,6 +213,10 @@ var emulatorConstants = []struct {
 
 func TestC09_Tables(t *testing.T) {
 	r := ev.New(t, "C09", "TestC09_Tables")
+	if ev.Replay() != "" { // ./check C09 --replay FILE: evaluate the saved case only
+		ev.Run(t, r, func(*rapid.T) c09PairCase { return c09PairCase{} }, c09PairOracle)
+		return
+	}
 	defer r.Flush()
 	allPairs, _ := refnas.NumPairs()
 	exercised := map[string]bool{}
